@@ -16,6 +16,7 @@ import (
 	"go/ast"
 	"go/printer"
 	"go/token"
+	"sort"
 	"strings"
 
 	"extract/lib"
@@ -104,47 +105,335 @@ func cacheMapKeys(g *lib.Gen, fn *ast.FuncDecl) []string {
 	return out
 }
 
+// ---- reachability: the functions of the same file a root function can call (methods on any receiver or plain functions,
+// found by name), a few levels deep. Facts are stated about this set, so that splitting a function into helpers, or
+// renaming a helper, does not change them.
+func reachable(f *ast.File, root *ast.FuncDecl, depth int) []*ast.FuncDecl {
+	byName := map[string]*ast.FuncDecl{}
+	for _, d := range f.Decls {
+		if fd, ok := d.(*ast.FuncDecl); ok {
+			byName[fd.Name.Name] = fd
+		}
+	}
+	seen := map[*ast.FuncDecl]bool{root: true}
+	out := []*ast.FuncDecl{root}
+	frontier := []*ast.FuncDecl{root}
+	for ; depth > 0 && len(frontier) > 0; depth-- {
+		var next []*ast.FuncDecl
+		for _, fn := range frontier {
+			ast.Inspect(fn, func(n ast.Node) bool {
+				c, ok := n.(*ast.CallExpr)
+				if !ok {
+					return true
+				}
+				name := ""
+				switch x := c.Fun.(type) {
+				case *ast.Ident:
+					name = x.Name
+				case *ast.SelectorExpr:
+					if _, ok := x.X.(*ast.Ident); ok { // recv.method(...)
+						name = x.Sel.Name
+					}
+				}
+				if fd := byName[name]; fd != nil && !seen[fd] {
+					seen[fd] = true
+					out = append(out, fd)
+					next = append(next, fd)
+				}
+				return true
+			})
+		}
+		frontier = next
+	}
+	return out
+}
+
+func inspectAll(fns []*ast.FuncDecl, f func(ast.Node) bool) {
+	for _, fn := range fns {
+		ast.Inspect(fn, f)
+	}
+}
+
+func countCalls(fns []*ast.FuncDecl, method string) int {
+	n := 0
+	inspectAll(fns, func(x ast.Node) bool {
+		if c, ok := x.(*ast.CallExpr); ok {
+			if sel, ok := c.Fun.(*ast.SelectorExpr); ok && sel.Sel.Name == method {
+				n++
+			}
+		}
+		return true
+	})
+	return n
+}
+
+// recvStruct: the struct type the method's receiver names.
+func recvStruct(f *ast.File, fn *ast.FuncDecl) (string, *ast.StructType) {
+	if fn.Recv == nil || len(fn.Recv.List) != 1 {
+		return "", nil
+	}
+	t := fn.Recv.List[0].Type
+	if st, ok := t.(*ast.StarExpr); ok {
+		t = st.X
+	}
+	id, ok := t.(*ast.Ident)
+	if !ok {
+		return "", nil
+	}
+	for _, d := range f.Decls {
+		if gd, ok := d.(*ast.GenDecl); ok && gd.Tok == token.TYPE {
+			for _, sp := range gd.Specs {
+				ts := sp.(*ast.TypeSpec)
+				if st, ok := ts.Type.(*ast.StructType); ok && ts.Name.Name == id.Name {
+					return id.Name, st
+				}
+			}
+		}
+	}
+	return id.Name, nil
+}
+
+// tableKeyFieldTypes: the receiver keeps ONE shared table of caches (a sync.Map, or a map guarded by a lock); the fact is
+// the (sorted) field types of the table's key type. For map[K]V the key type is K; for a sync.Map it is the type of the
+// first argument of the table's Load/LoadOrStore/Store/Delete calls (a composite literal T{…}, a local defined by one, or
+// a parameter declared with type T) — all of them must agree.
+func tableKeyFieldTypes(g *lib.Gen, f *ast.File, root *ast.FuncDecl, fns []*ast.FuncDecl) []string {
+	_, st := recvStruct(f, root)
+	if st == nil {
+		return nil
+	}
+	keyTypes := map[string]bool{}
+	var syncFields []string
+	for _, fl := range st.Fields.List {
+		switch t := fl.Type.(type) {
+		case *ast.MapType:
+			if id, ok := t.Key.(*ast.Ident); ok {
+				keyTypes[id.Name] = true
+			}
+		case *ast.SelectorExpr:
+			if exprString(g, t) == "sync.Map" {
+				for _, n := range fl.Names {
+					syncFields = append(syncFields, n.Name)
+				}
+			}
+		}
+	}
+	for _, fn := range fns {
+		// local name -> type name, from `x := T{…}` and from parameters `x T`
+		local := map[string]string{}
+		if fn.Type.Params != nil {
+			for _, p := range fn.Type.Params.List {
+				if id, ok := p.Type.(*ast.Ident); ok {
+					for _, n := range p.Names {
+						local[n.Name] = id.Name
+					}
+				}
+			}
+		}
+		ast.Inspect(fn, func(n ast.Node) bool {
+			if as, ok := n.(*ast.AssignStmt); ok && len(as.Lhs) == len(as.Rhs) {
+				for i := range as.Lhs {
+					if id, ok := as.Lhs[i].(*ast.Ident); ok {
+						if cl, ok := as.Rhs[i].(*ast.CompositeLit); ok {
+							if t, ok := cl.Type.(*ast.Ident); ok {
+								local[id.Name] = t.Name
+							}
+						}
+					}
+				}
+			}
+			return true
+		})
+		ast.Inspect(fn, func(n ast.Node) bool {
+			c, ok := n.(*ast.CallExpr)
+			if !ok || len(c.Args) == 0 {
+				return true
+			}
+			sel, ok := c.Fun.(*ast.SelectorExpr)
+			if !ok {
+				return true
+			}
+			inner, ok := sel.X.(*ast.SelectorExpr)
+			if !ok {
+				return true
+			}
+			isTable := false
+			for _, sf := range syncFields {
+				if inner.Sel.Name == sf {
+					isTable = true
+				}
+			}
+			switch sel.Sel.Name {
+			case "Load", "LoadOrStore", "Store", "Delete", "LoadAndDelete":
+			default:
+				isTable = false
+			}
+			if !isTable {
+				return true
+			}
+			switch a := c.Args[0].(type) {
+			case *ast.CompositeLit:
+				if t, ok := a.Type.(*ast.Ident); ok {
+					keyTypes[t.Name] = true
+				}
+			case *ast.Ident:
+				if t, ok := local[a.Name]; ok {
+					keyTypes[t] = true
+				} else {
+					keyTypes["?"+a.Name] = true
+				}
+			default:
+				keyTypes["?"+exprString(g, a)] = true
+			}
+			return true
+		})
+	}
+	if len(keyTypes) != 1 {
+		var l []string
+		for k := range keyTypes {
+			l = append(l, "AMBIGUOUS:"+k)
+		}
+		sort.Strings(l)
+		return l
+	}
+	var types []string
+	for k := range keyTypes {
+		for _, p := range structFields(g, f, k) {
+			types = append(types, p[1])
+		}
+	}
+	sort.Strings(types)
+	return types
+}
+
+// bindsToUpstream: somewhere in the functions a comparison (!= or ==) has on one side the request's bound cluster
+// (`X.UpstreamCluster`, or a local defined by it) and on the other side the cluster a ClientFor call returned (the first
+// result of `c, … := ….ClientFor(…)`).
+func bindsToUpstream(g *lib.Gen, fns []*ast.FuncDecl) bool {
+	found := false
+	for _, fn := range fns {
+		bound := map[string]bool{}    // locals that are the bound cluster
+		resolved := map[string]bool{} // locals that are ClientFor's cluster
+		ast.Inspect(fn, func(n ast.Node) bool {
+			as, ok := n.(*ast.AssignStmt)
+			if !ok {
+				return true
+			}
+			if len(as.Rhs) == 1 {
+				if c, ok := as.Rhs[0].(*ast.CallExpr); ok {
+					if sel, ok := c.Fun.(*ast.SelectorExpr); ok && sel.Sel.Name == "ClientFor" && len(as.Lhs) >= 1 {
+						if id, ok := as.Lhs[0].(*ast.Ident); ok {
+							resolved[id.Name] = true
+						}
+					}
+				}
+			}
+			if len(as.Lhs) == len(as.Rhs) {
+				for i := range as.Lhs {
+					if id, ok := as.Lhs[i].(*ast.Ident); ok {
+						if sel, ok := as.Rhs[i].(*ast.SelectorExpr); ok && sel.Sel.Name == "UpstreamCluster" {
+							bound[id.Name] = true
+						}
+					}
+				}
+			}
+			return true
+		})
+		isBound := func(e ast.Expr) bool {
+			switch x := e.(type) {
+			case *ast.SelectorExpr:
+				return x.Sel.Name == "UpstreamCluster"
+			case *ast.Ident:
+				return bound[x.Name]
+			}
+			return false
+		}
+		isResolved := func(e ast.Expr) bool {
+			id, ok := e.(*ast.Ident)
+			return ok && resolved[id.Name]
+		}
+		ast.Inspect(fn, func(n ast.Node) bool {
+			be, ok := n.(*ast.BinaryExpr)
+			if ok && (be.Op == token.NEQ || be.Op == token.EQL) {
+				if (isBound(be.X) && isResolved(be.Y)) || (isBound(be.Y) && isResolved(be.X)) {
+					found = true
+				}
+			}
+			return true
+		})
+	}
+	return found
+}
+
 func main() {
 	lib.Main(func(g *lib.Gen) {
 		var b strings.Builder
 		b.WriteString("namespace KG.Gen.C12\n")
-		b.WriteString("/-! facts read from " + sarFile + " and " + tokFile + " -/\n")
+		b.WriteString("/-! facts read from " + sarFile + ", " + tokFile + ", " + dispFile + ", " + appFile + "\n" +
+			"    (stated about everything the entry point can reach in its file, by role rather than by spelling) -/\n")
 
 		// ---- authorizer
 		sar := g.ParseFile(sarFile)
-		fmt.Fprintf(&b, "def maxControlledAttrCacheSize : Nat := %s\n", lib.IntLit(g.Const(sarFile, "maxControlledAttrCacheSize")))
-		ctor := lib.FuncDecl(sar, "", "NewMultiClusterSubjectAccessReviewAuthorizer")
-		if ctor == nil {
-			lib.Fatalf("NewMultiClusterSubjectAccessReviewAuthorizer not found in %s", sarFile)
-		}
-		decision := ""
-		ast.Inspect(ctor, func(n ast.Node) bool {
-			kv, ok := n.(*ast.KeyValueExpr)
-			if !ok {
-				return true
-			}
-			if id, ok := kv.Key.(*ast.Ident); ok && id.Name == "decisionOnError" {
-				decision = exprString(g, kv.Value)
-			}
-			return true
-		})
-		if decision == "" {
-			lib.Fatalf("the constructor in %s no longer sets decisionOnError", sarFile)
-		}
-		fmt.Fprintf(&b, "/-- `decisionOnError:` of NewMultiClusterSubjectAccessReviewAuthorizer -/\ndef decisionOnError : String := %q\n", decision)
 		authz := lib.FuncDecl(sar, "MultiClusterSubjectAccessReviewAuthorizer", "Authorize")
 		if authz == nil {
 			lib.Fatalf("Authorize not found in %s", sarFile)
 		}
-		lru := callsTo(authz, "cache", "NewLRUExpireCache")
-		if len(lru) != 1 || len(lru[0].Args) != 1 {
-			lib.Fatalf("Authorize no longer creates exactly one cache.NewLRUExpireCache(n)")
+		authzAll := reachable(sar, authz, 3)
+		// the constant the summed attribute lengths are compared with (`… < C` next to GetNamespace / GetPath)
+		maxName := ""
+		for _, d := range sar.Decls {
+			fd, ok := d.(*ast.FuncDecl)
+			if !ok || fd.Body == nil {
+				continue
+			}
+			src := exprStringNode(g, fd.Body)
+			if !strings.Contains(src, "GetNamespace()") || !strings.Contains(src, "GetPath()") {
+				continue
+			}
+			ast.Inspect(fd, func(n ast.Node) bool {
+				if be, ok := n.(*ast.BinaryExpr); ok && be.Op == token.LSS {
+					if id, ok := be.Y.(*ast.Ident); ok {
+						maxName = id.Name
+					}
+				}
+				return true
+			})
 		}
-		fmt.Fprintf(&b, "def sarLRUSize : String := %q\n", exprString(g, lru[0].Args[0]))
-		fmt.Fprintf(&b, "/-- fields of `cacheKey` in the authorizer ([] when the type is gone) -/\ndef sarCacheKey : List (String × String) := %s\n", leanPairs(structFields(g, sar, "cacheKey")))
-		fmt.Fprintf(&b, "/-- first argument of every `a.caches.<m>(…)` in Authorize -/\ndef sarCacheMapCalls : List String := %s\n", lib.LeanStrList(cacheMapKeys(g, authz)))
-		// how many times Authorize resolves the host
-		fmt.Fprintf(&b, "def sarClientForCalls : Nat := %d\n", countMethodCalls(authz, "ClientFor"))
+		if maxName == "" {
+			maxName = "maxControlledAttrCacheSize"
+		}
+		fmt.Fprintf(&b, "/-- the bound of `shouldCache` (constant %s) -/\ndef maxControlledAttrCacheSize : Nat := %s\n", maxName, lib.IntLit(g.Const(sarFile, maxName)))
+		// the value the constructor gives to the authorizer's field of type authorizer.Decision
+		_, st := recvStruct(sar, authz)
+		decisionField := ""
+		if st != nil {
+			for _, fl := range st.Fields.List {
+				if exprString(g, fl.Type) == "authorizer.Decision" && len(fl.Names) == 1 {
+					decisionField = fl.Names[0].Name
+				}
+			}
+		}
+		decision := ""
+		for _, d := range sar.Decls {
+			fd, ok := d.(*ast.FuncDecl)
+			if !ok || fd.Recv != nil {
+				continue
+			}
+			ast.Inspect(fd, func(n ast.Node) bool {
+				if kv, ok := n.(*ast.KeyValueExpr); ok {
+					if id, ok := kv.Key.(*ast.Ident); ok && id.Name == decisionField && decisionField != "" {
+						decision = exprString(g, kv.Value)
+					}
+				}
+				return true
+			})
+		}
+		if decision == "" {
+			lib.Fatalf("no constructor in %s sets the authorizer's authorizer.Decision field", sarFile)
+		}
+		fmt.Fprintf(&b, "/-- what the constructor stores as the decision returned on errors -/\ndef decisionOnError : String := %q\n", decision)
+		fmt.Fprintf(&b, "/-- sorted field types of the key of the authorizer's shared table of decision caches -/\ndef sarCacheKeyTypes : List String := %s\n", lib.LeanStrList(tableKeyFieldTypes(g, sar, authz, authzAll)))
+		fmt.Fprintf(&b, "/-- ClientFor call sites Authorize can reach -/\ndef sarClientForSites : Nat := %d\n", countCalls(authzAll, "ClientFor"))
 
 		// ---- authenticator
 		tok := g.ParseFile(tokFile)
@@ -152,22 +441,20 @@ func main() {
 		if authn == nil {
 			lib.Fatalf("AuthenticateToken not found in %s", tokFile)
 		}
-		nw := callsTo(authn, "tokencache", "New")
-		if len(nw) != 1 || len(nw[0].Args) != 4 {
-			lib.Fatalf("AuthenticateToken no longer creates exactly one tokencache.New(auth, cacheErrs, successTTL, failureTTL)")
+		authnAll := reachable(tok, authn, 3)
+		var nw []*ast.CallExpr
+		for _, fn := range authnAll {
+			nw = append(nw, callsTo(fn, "tokencache", "New")...)
 		}
-		fmt.Fprintf(&b, "/-- second argument (`cacheErrs`) of tokencache.New -/\ndef tokenCacheErrs : String := %q\n", exprString(g, nw[0].Args[1]))
-		fmt.Fprintf(&b, "def tokenCacheTTLArgs : List String := %s\n", lib.LeanStrList([]string{exprString(g, nw[0].Args[2]), exprString(g, nw[0].Args[3])}))
-		fmt.Fprintf(&b, "def tokenCacheKey : List (String × String) := %s\n", leanPairs(structFields(g, tok, "cacheKey")))
-		fmt.Fprintf(&b, "def tokenCacheMapCalls : List String := %s\n", lib.LeanStrList(cacheMapKeys(g, authn)))
-		closure := lib.FuncDecl(tok, "multiClusterTokenReviewAuthenticator", "authenticateTokenForHost")
-		if closure == nil {
-			lib.Fatalf("authenticateTokenForHost not found in %s", tokFile)
+		cacheErrs := "?"
+		if len(nw) == 1 && len(nw[0].Args) == 4 {
+			cacheErrs = exprString(g, nw[0].Args[1])
 		}
-		fmt.Fprintf(&b, "def tokenClientForCalls : Nat × Nat := (%d, %d)\n", countMethodCalls(authn, "ClientFor"), countMethodCalls(closure, "ClientFor"))
-		// does the function refuse a request whose already-bound upstream cluster differs from the cluster resolved now?
-		fmt.Fprintf(&b, "/-- AuthenticateToken compares info.UpstreamCluster with the cluster returned by ClientFor -/\ndef bindsTokenToUpstream : Bool := %v\n", comparesUpstream(g, authn))
-		fmt.Fprintf(&b, "/-- Authorize compares info.UpstreamCluster with the cluster returned by ClientFor -/\ndef bindsSarToUpstream : Bool := %v\n", comparesUpstream(g, authz))
+		fmt.Fprintf(&b, "/-- `cacheErrs` argument of the one tokencache.New AuthenticateToken can reach -/\ndef tokenCacheErrs : String := %q\n", cacheErrs)
+		fmt.Fprintf(&b, "def tokenCacheKeyTypes : List String := %s\n", lib.LeanStrList(tableKeyFieldTypes(g, tok, authn, authnAll)))
+		fmt.Fprintf(&b, "/-- ClientFor call sites AuthenticateToken can reach (the first resolution and the review closure's) -/\ndef tokenClientForSites : Nat := %d\n", countCalls(authnAll, "ClientFor"))
+		fmt.Fprintf(&b, "/-- AuthenticateToken compares the request's bound cluster with the cluster ClientFor returned -/\ndef bindsTokenToUpstream : Bool := %v\n", bindsToUpstream(g, authnAll))
+		fmt.Fprintf(&b, "/-- Authorize compares the request's bound cluster with the cluster ClientFor returned -/\ndef bindsSarToUpstream : Bool := %v\n", bindsToUpstream(g, authzAll))
 		// ---- dispatcher: which cluster does it proxy to?
 		disp := g.ParseFile(dispFile)
 		serve := lib.FuncDecl(disp, "dispatcher", "ServeHTTP")
@@ -205,6 +492,12 @@ func main() {
 		b.WriteString("end KG.Gen.C12\n")
 		g.Emit("C12.lean", b.String())
 	})
+}
+
+func exprStringNode(g *lib.Gen, n ast.Node) string {
+	var b strings.Builder
+	printer.Fprint(&b, g.Fset(), n)
+	return b.String()
 }
 
 // comparesUpstream: the function contains `info.UpstreamCluster != cluster` (or ==, either order).
